@@ -1,5 +1,6 @@
 """C06 - the Verilog reader builds exactly the design the source describes."""
 from simkit.engine import Prop
+from simkit import design_shrink
 from simkit.gen_hier import ScriptGen
 from simkit import corpus, textgen_verilog
 from simkit.oracles.links import check_links
@@ -95,8 +96,10 @@ class C06(Prop):
             ev.append({"op": "fs_put_example", "name": cfg["example"], "path": "sim://in.v"})
         else:
             d = textgen_verilog.gen_design(rng, cfg["gen"])
-            text = textgen_verilog.render(d, rng, cfg["render"])
-            ev.append({"op": "fs_put", "path": "sim://in.v", "text": text, "design": d})
+            rs = rng.getrandbits(32)
+            text = design_shrink.render("v", d, rs, cfg["render"])
+            ev.append({"op": "fs_put", "path": "sim://in.v", "text": text, "design": d, "fmt": "v",
+                       "render": cfg["render"], "render_seed": rs})
         ev.append({"op": "parse", "path": "sim://in.v"})
         return ScriptGen(ev)
 
@@ -106,6 +109,8 @@ class C06(Prop):
     def before(self, w, ev):
         if ev["op"] == "fs_put":
             self.design = ev.get("design")
+            if self.design and any(p.get("alias") or p.get("alias_wide") for m in self.design["modules"] for p in m["ports"]):
+                w.count("probe.design_with_aliased_header_port")
         if ev["op"] == "parse":
             return World.process_state_fingerprint()
         return None
